@@ -98,7 +98,8 @@ def finish(pid, args, seed, jobs, results, t0):
         if rep['status'] == 'engine_only':
             # no native realisation exists for this world (stated in DESIGN.md): reported on the engine's evidence, marked as such
             v['what'] += '  [engine evidence only: ' + rep.get('detail', '') + ']'
-            violations.append(v)
+            if listed: printed_known[kid] = v
+            else: violations.append(v)
         elif rep['status'] == 'confirmed':
             if listed:
                 printed_known[kid] = v
